@@ -120,10 +120,10 @@ prop('C10', True, "Theorems on the store model with locks and temp files: cleanu
      "Lean 4 proof + kernel-checked extracted dispatch table + differential correspondence through the real subcommand")
 
 prop('C09', True, "Lean model of the command's memoised recursion (aff) and of the specification (inductive Affected): cli_eq_spec (sound and complete for every DAG in creation order), shell_union_eq_cli (shell-invalidating "
-     "every matching task = command line), store_after (exactly the affected results are removed, every other untouched), invalidate_keeps_closed (the store stays closed under dependencies, so check stays truthful and execute "
+     "every matching task = command line), shellLoop_spec / shell_terminates / shell_total (the interactive shell's reverse-edge work list as coded ends and invalidates exactly the root and its dependents), store_after (exactly the affected results are removed, every other untouched), invalidate_keeps_closed (the store stays closed under dependencies, so check stays truthful and execute "
      "re-runs exactly the removed tasks by C01/C02). Correspondence: generated DAGs x every function name as target x full/partial/holed/packed prior states x 4 backends through the real InvalidateCommand and the real shell "
      "invalidate function; removed set = model's; monitors: nothing that really reads an invalidated result survives, nothing outside the reported closure is touched, re-execution runs exactly the removed tasks and restores values.",
-     "The shell variant's worklist algorithm is modelled by its specification (closure), tied by sampled correspondence only. Dependency ground truth measured by a cache-free sequential run.",
+     "Task hashes are modelled as task indices (equal-hash duplicates are one task); the shell model is tied to the code by the sampled correspondence (removed set of the real function = shellLoop's). Dependency ground truth measured by a cache-free sequential run.",
      "Lean 4 proof (induction on fuel / on the Affected derivation) + differential correspondence through the real subcommands")
 prop('C15', True, "Lean model of the uncached classifier, the cached classifier (update_status) and the check walk. Theorems: classify_spec (each category's meaning; exhaustive and exclusive), totals_add_up, cached_eq_uncached "
      "(cache = unknown or truthful status of an earlier state with fewer results => cached = uncached), check_iff (for dependency-closed stores exit 0 iff all complete; counterexample without closure). Bridge classifier_table_matches: "
